@@ -18,6 +18,8 @@ Decided:
  Q4b exposure table: the owning queue's pop is folded over the used length L against the buffer size B: it yields the
     slice [0, L) of the slot iff L <= B (a completely filled buffer is delivered in full) and an error otherwise.
  Q5 initial stocking: each constructor of a stocked queue adds every buffer in a loop and propagates failure.
+ Q7 free-running indices only compared for (in)equality / advanced with wrapping arithmetic (C03.E5).
+ Q8 id and length are read from the same used-ring slot; refused polls change nothing (C03.E1/E2).
 Not decided: "exactly once, count returns to SIZE" over histories.
 """
 from .common import *
